@@ -126,3 +126,16 @@ theorem FreshInv.congr {σ : Shape} {b : Bay} {f f' : Nat → Bool} (h : ∀ c, 
   exact ⟨fun hx => (hf mi m hm).1 ((key m).mp hx), fun hx => (hf mi m hm).2 (fun hy => hx ((key m).mpr hy))⟩
 
 end Ovni.Emu
+
+namespace Ovni.Emu
+
+/-- Without mux defaults no CPU track is ever "fresh": the ghost is irrelevant. -/
+theorem FreshInv.of_null_defaults {σ : Shape} {b : Bay} {f f' : Nat → Bool}
+    (hn : ∀ (mi : Nat) (m : Mux), b.muxes[mi]? = some m → m.dflt = .null) (hf : FreshInv σ b f) :
+    FreshInv σ b f' := by
+  intro mi m hm
+  have h1 : ¬ σ.isFresh f m := fun h => h.1 (hn mi m hm)
+  have h2 : ¬ σ.isFresh f' m := fun h => h.1 (hn mi m hm)
+  exact ⟨fun h => absurd h h2, fun _ => (hf mi m hm).2 h1⟩
+
+end Ovni.Emu
